@@ -1050,14 +1050,27 @@ class C17(CaseSpec):
                 for c in cs:
                     if c.tags["serial"]:
                         serial.add(cn.outcome_of(cn.parse_sched_obs(obs[c.name])))
+                # the model's own verdict on the same schedules: a known finding explains a failing schedule only if the
+                # MODEL (which has the finding) fails on that schedule too
+                mobs = {}
+                for c in cs:
+                    r = results.get("model", {}).get(c.name)
+                    mobs[c.name] = r[-1][1] if r else None
+                mserial = set(cn.outcome_of(cn.parse_sched_obs(mobs[c.name])) for c in cs if c.tags["serial"] and mobs[c.name])
                 for c in cs:
                     msg, hard = self.decide(c, obs[c.name], serial)
                     if not msg:
                         continue
                     k = c.tags.get("known")
-                    if k and not hard and k in listed:
+                    model_fails = True
+                    if mobs[c.name]:
+                        mmsg, _ = self.decide(c, mobs[c.name], mserial)
+                        model_fails = bool(mmsg)
+                    if k and not hard and k in listed and model_fails:
                         known_hit.setdefault(k, (fl, c, msg))
                     else:
+                        if k and not model_fails:
+                            msg += " (the scenario lies in the known-finding class `%s`, but the model, which has that finding, is fine on this very schedule)" % k
                         new_bad.append((fl, c, msg, obs[c.name]))
         for k in sorted(known_hit):
             fl, c, msg = known_hit[k]
